@@ -206,6 +206,12 @@ func (c *Conn) waitCloseHandshake() error {
 	}
 	defer c.readMu.unlock()
 
+	// The close frame may already have been read by a concurrent reader
+	// that has released readMu but not yet closed the connection.
+	if c.readCloseFrameErr != nil {
+		return c.readCloseFrameErr
+	}
+
 	for i := int64(0); i < c.msgReader.payloadLength; i++ {
 		_, err := c.br.ReadByte()
 		if err != nil {
